@@ -451,7 +451,13 @@ def opCompound (j : Json) : R Json := do
     let back := memberPix.map fun flat =>
       if !sharedAgree em flat then errJson .valueError
       else listJson ratJson (selectIdx (mappingInverse em (nInputsOf em)) flat)
+    let aapt ← match optField j "types" with
+      | none => pure Json.null
+      | some t => do
+        let ts ← asList asStr t
+        pure (listJson (listJson Json.str) (arrayAxisPhysicalTypes c.corr c.pixDim ts))
     pure <| Json.mkObj [("pixDim", natJson c.pixDim), ("worldDim", natJson c.worldDim),
+      ("aapt", aapt),
       ("corr", listJson (listJson Json.bool) c.corr), ("arrayShape", optJson (listJson natJson) c.shape),
       ("world", listJson (fun p => listJson memberSymJson (c.p2w p)) pix),
       ("back", Json.arr back.toArray)]
